@@ -169,6 +169,27 @@ MINE = {
  "C18-h": ("missed", "field_examples texts that spell special values of the field's own kind (NaN, Infinity, padded/signed/out-of-range numbers, boolean words) on every scalar kind and cardinality"),
  "C19-h": ("missed", "required on repeated string/bytes, on maps and together with min_items, probed with empty elements, keys and values"),
  "C20-h": ("missed", "response fields named and typed like request fields with rules of their own; request sequences whose values break the response rules; every answer of a sequence is validated"),
+ # ---- round i (small features C01-C10, performance optimisations C11-C20)
+ "C01-i": ("missed", "string classes with whitespace at the ends (spaces, U+00A0): data for a string binder"),
+ "C02-i": ("caught as built", ""),
+ "C03-i": ("missed", "routes declared after routes with path variables {id}/{org_id} whose QUERY-bound fields carry those proto names"),
+ "C04-i": ("missed (masked: the timestamp pattern absorbed every value class)", "timestamp classes inside the Timestamp range and outside the int64-nanosecond range (years 1500, 1677, 2263, 2500); the known-finding pattern for UNIX formats is restricted to the value classes it was observed for (max, min); found and repaired a genuine defect on the way (3399969: decoders converted in the local zone)"),
+ "C05-i": ("caught as built", ""),
+ "C06-i": ("missed", "bytes length rules (len / min_len / max_len, bounds not divisible by 3) under every bytes_encoding, probed at and around the bound; they travel through C06 and C19"),
+ "C07-i": ("caught as built", ""),
+ "C08-i": ("missed", "route sub-catalogue bodymap: body verbs whose body carries multi-word fields, string-keyed maps of strings and of messages, a nested message with a map; map keys spelled like the definition's field names (both spellings)"),
+ "C09-i": ("caught as built", ""),
+ "C10-i": ("caught as built", ""),
+ "C11-i": ("missed", "responses that declare a Content-Length at the edges of int64 (MaxInt64, -1, -511, -512, -4096, 2^62, 1 TiB, 2^32+1, 2^31, 0 with a body, one less than the body)"),
+ "C12-i": ("missed", "path variables that share their segment with literal text ({id}.json, {id}:verb, v{id}, {a}-{b}): the three path rules as refusals, GET/DELETE/POST routes bound only through such a variable as acceptances"),
+ "C13-i": ("missed", "path variables bound to proto3 optional fields of every scalar kind (build catalogue) and as a placement group (C01/C02/C07/C08); found and repaired a genuine defect on the way (6e941ca: the Go client put the pointer's address into the path)"),
+ "C14-i": ("caught as built", ""),
+ "C15-i": ("caught as built", ""),
+ "C16-i": ("caught as built", ""),
+ "C17-i": ("missed", "one header name declared with three different specs on three routes of the package (integer, uuid, free string); request kind bad-header sends a value that another route's declaration accepts"),
+ "C18-i": ("missed", "field_examples texts of whole numbers between 2^63 and 2^64 and at the int64 edges"),
+ "C19-i": ("missed", "a third rule package that reaches sebuf's and buf.validate's option files only through an umbrella file with import public"),
+ "C20-i": ("missed", "nested types with examples used from a sibling nested type, from an unrelated message and as a map value; an absent JSON member counts as the kind's default"),
 }
 
 
